@@ -2761,11 +2761,12 @@ class Parameters:
         self_._state_watchers = []
         param_values = self_.values()
         params = {name: param_values[name] for name in param_names}
+        TRIGGER = self_._TRIGGER
         self_._TRIGGER = True
         try:
             self_.update(dict(params, **triggers))
         finally:
-            self_._TRIGGER = False
+            self_._TRIGGER = TRIGGER
             self_._events += events
             self_._state_watchers += [
                 w for w in watchers
